@@ -11,13 +11,14 @@ CONSTANTS MaxDepth
 VARIABLES st, prog
 vars == <<st, prog>>
 Names == {"a", "b", "c"}
-Kinds == {"add", "sub", "mul"}
+Kinds == {"add", "sub", "mul", "div"}
 Ops == [op : {"iop"}, c : Names, kind : Kinds, v : {1, 2}]
        \cup [op : {"fiop"}, c : Names, k : 1..4, kind : {"add", "mul"}, v : {1}]
        \cup [op : {"fill"}, c : Names, k : 1..4, v : {3}]
        \cup [op : {"link"}, a : Names, b : Names]
        \cup {o \in [op : {"copy"}, a : Names, t : Names] : o.a # o.t}
-       \cup {o \in [op : {"plus"}, a : Names, kind : {"add", "sub"}, v : {1}, t : Names] : o.a # o.t}
+       \cup {o \in [op : {"plus"}, a : Names, kind : Kinds, v : {1}, t : Names] : o.a # o.t}
+       \cup [op : {"ffop"}, c : Names, k : 1..2, d : Names, j : 1..2, kind : {"add", "sub"}]
        \cup [op : {"join"}, a : Names, b : Names, t : Names]
 
 S0 == [cont |-> [c \in {"a", "b"} |-> IF c = "a" THEN <<1, 2>> ELSE <<3, 4>>],
@@ -31,7 +32,7 @@ Spec == Init /\ [][Next]_vars
 \* ---- theorems of the heap model (state invariants and action properties)
 WF == WellFormed(st)
 LastOp == prog'[Len(prog')]
-InPlace(o) == o.op \in {"iop", "fiop", "fill"}
+InPlace(o) == o.op \in {"iop", "fiop", "fill", "ffop"}
 \* in-place updates change no binding
 InPlaceKeepsStructure == [][InPlace(LastOp) => st'.cont = st.cont /\ st'.fobj = st.fobj]_vars
 \* ... and are invisible to containers that share no array with the updated one
@@ -60,12 +61,13 @@ JoinShares == [][LastOp.op = "join" => st'.cont[LastOp.t] = st.cont[LastOp.a] \o
 \* global numbering: on a container without internal sharing, c += w adds w[offset_k + i] to entry i of field k
 GlobalNumbering == [][(LastOp.op = "iop" /\ LastOp.kind = "add" /\ IsInjective([k \in Slots(st, LastOp.c) |-> Arr(st, LastOp.c, k)])) =>
                         \A k \in Slots(st, LastOp.c) : \A i \in 1..Size(st, LastOp.c, k) :
-                           st'.heap[Arr(st, LastOp.c, k)][i] = st.heap[Arr(st, LastOp.c, k)][i] + LastOp.v * (Offset(st, LastOp.c, k) + i)]_vars
+                           st'.heap[Arr(st, LastOp.c, k)][i] = st.heap[Arr(st, LastOp.c, k)][i] + Unit * LastOp.v * (Offset(st, LastOp.c, k) + i)]_vars
 
 \* ---- export
 OpStr(o) == CASE o.op = "iop" -> "iop:" \o o.c \o ":" \o o.kind \o ":" \o ToString(o.v)
               [] o.op = "fiop" -> "fiop:" \o o.c \o ":" \o ToString(o.k) \o ":" \o o.kind \o ":" \o ToString(o.v)
               [] o.op = "fill" -> "fill:" \o o.c \o ":" \o ToString(o.k) \o ":" \o ToString(o.v)
+              [] o.op = "ffop" -> "ffop:" \o o.c \o ":" \o ToString(o.k) \o ":" \o o.d \o ":" \o ToString(o.j) \o ":" \o o.kind
               [] o.op = "link" -> "link:" \o o.a \o ":" \o o.b
               [] o.op = "copy" -> "copy:" \o o.a \o ":" \o o.t
               [] o.op = "plus" -> "plus:" \o o.a \o ":" \o o.kind \o ":" \o ToString(o.v) \o ":" \o o.t
